@@ -156,6 +156,10 @@ pub fn resolve_constant(
 
     let symbol = defs.symbols.get_mut(item_ref);
     let prev_value = symbol.value.clone();
+
+    #[cfg(hlorenzi_customasm_verif)]
+    crate::verif::note("prev", crate::verif::value_of(&prev_value));
+
     symbol.value = value;
 
     
